@@ -167,7 +167,7 @@ def run(ctx: Ctx, pool, col=None):
     rng = ctx.rng
     sigs = all_sigs(ctx.pick(3, 4))
     calls = all_calls(ctx.pick(3, 4))
-    nsig = ctx.pick(140, 900)
+    nsig = ctx.pick(140, 600)
     ncall = ctx.pick(70, 220)
     # every signature with ≤ 2 parameters, a sample of the larger ones
     small = [s for s in sigs if len(s.pos) + len(s.norm) + len(s.kws) <= 2]
@@ -188,7 +188,7 @@ def run(ctx: Ctx, pool, col=None):
         cs += rng.sample(long_calls, min(len(long_calls), ncall - len(cs)))
         for c in cs:
             pairs.append((i, c))
-    native_cand = rng.sample(pairs, min(len(pairs), ctx.pick(1600, 12000)))
+    native_cand = rng.sample(pairs, min(len(pairs), ctx.pick(1600, 5000)))
     callers = {}
     for j, (i, c) in enumerate(native_cand):
         callers[f"g{j}"] = (i, c)
